@@ -61,7 +61,7 @@ SUPPORTS = [(0, 200), (-10, 10), (-3.3, 7.7), (0, 0.3)]
 EPS32 = float(np.finfo(np.float32).eps)
 WANTED = ("target_q_dist", "proj_dist", "log_p", "next_actions", "t_z", "gamma")
 NEEDED = ("target_q_dist", "proj_dist", "log_p")
-_STATE = {"rec": None, "calls": None, "tool": None, "installed": False, "tap_error": None}
+_STATE = {"rec": None, "calls": None, "events": None, "tool": None, "installed": False, "tap_error": None}
 
 
 def preload():
@@ -92,6 +92,9 @@ def _on_return(code, offset, retval):
                 snap[n] = v
         snap["ret"] = retval.detach().to("cpu").double().numpy().copy() if isinstance(retval, torch.Tensor) else None
         calls.append(snap)
+        ev = _STATE.get("events")
+        if ev is not None:
+            ev.append(("ret", None))
     except Exception as e:  # never raise into the code under observation
         _STATE["tap_error"] = f"{type(e).__name__}: {e}"[:200]
 
@@ -122,13 +125,16 @@ class _NetTap:
     """Shadows net.forward on the instance (EvolvableNetwork.__call__ goes straight to self.forward) and records
     (q, log, output) of every call; removed on exit."""
 
-    def __init__(self, net):
+    def __init__(self, net, peer=None, tag="on"):
         self.net = net
+        self.peer = peer  # target tap: the ONLINE network, evaluated on the same input at the same moment
+        self.tag = tag
         self.calls = []
 
     def __enter__(self):
         inner = self.net.forward
         calls = self.calls
+        peer = self.peer
 
         def tapped(obs, q=True, log=False):
             out = inner(obs, q=q, log=log)
@@ -142,10 +148,26 @@ class _NetTap:
                         dist = inner(obs, q=False, log=False).detach().to("cpu").double().numpy().copy()
                 except Exception:
                     dist = None
+            pq = pd = None
+            if peer is not None and not q and not log:
+                # whatever the library does to find the greedy next action: what the online network says about THIS
+                # input right now (its un-tapped class forward; weights and noise are those of the loss computation)
+                try:
+                    import torch
+
+                    with torch.no_grad():
+                        f = type(peer).forward
+                        pq = f(peer, obs, q=True, log=False).detach().to("cpu").double().numpy().copy()
+                        pd = f(peer, obs, q=False, log=False).detach().to("cpu").double().numpy().copy()
+                except Exception:
+                    pq = pd = None
             try:
-                calls.append((bool(q), bool(log), out.detach().to("cpu").double().numpy().copy(), dist))
+                calls.append((bool(q), bool(log), out.detach().to("cpu").double().numpy().copy(), dist, pq, pd))
             except Exception:
-                calls.append((bool(q), bool(log), None, None))
+                calls.append((bool(q), bool(log), None, None, None, None))
+            ev = _STATE.get("events")
+            if ev is not None:
+                ev.append((self.tag, calls[-1]))
             return out
 
         object.__setattr__(self.net, "forward", tapped)
@@ -317,12 +339,21 @@ def _check_call(rec, case, agent, snap, batch, g, online_calls, target_calls, si
     tol_ref = 1e-5 + 4 * EPS32 * (max(abs(vmin), abs(vmax)) / dz + atoms)
 
     # --- the source is the target network's distribution for the greedy next action; log_p the online one's
-    tq = [o for (q, lg, o, _) in target_calls if (not q) and (not lg) and o is not None]
-    oq = [o for (q, lg, o, _) in online_calls if q and (not lg) and o is not None]
-    od = [dd for (q, lg, o, dd) in online_calls if q and (not lg) and o is not None]
-    ol = [o for (q, lg, o, _) in online_calls if (not q) and lg and o is not None]
+    tcs = [c for c in target_calls if (not c[0]) and (not c[1]) and c[2] is not None]
+    tq = [c[2] for c in tcs]
+    oq = [c[2] for c in online_calls if c[0] and (not c[1]) and c[2] is not None]
+    od = [c[3] for c in online_calls if c[0] and (not c[1]) and c[2] is not None]
+    ol = [c[2] for c in online_calls if (not c[0]) and c[1] and c[2] is not None]
+    if len(tq) == 1 and not oq and tcs[0][4] is not None and tcs[0][4].shape == tq[0].shape[:2]:
+        # the library did not ask the online network for Q-values of the next observations at all: the greedy next
+        # action is still defined by them (taken from the peer evaluation inside the target tap)
+        rec.hit("online_q_taken_from_peer_evaluation")
+        oq, od = [tcs[0][4]], [tcs[0][5]]
     if len(tq) == 1 and len(oq) == 1 and len(ol) == 1:
         tq, oq, ol = tq[0], oq[0], ol[0]
+        if tcs[0][4] is not None and tcs[0][4].shape == oq.shape and not np.allclose(tcs[0][4], oq, rtol=0, atol=1e-6 * max(1.0, abs(vmin), abs(vmax))):
+            rec.violate("source", "q_values_used_for_the_greedy_action_are_not_the_online_networks_for_the_next_observation", site,
+                        used=oq[0], online=tcs[0][4][0])
         if od and od[0] is not None and od[0].shape[:2] == oq.shape:
             # "greedy next action": greedy with respect to the expectation of the return distributions the online
             # network itself reports for the next observation
@@ -409,11 +440,21 @@ def _learn_once(rec, case, agent, rng, gen, step):
     g1 = float(agent.gamma)
     gn = float(agent.gamma) ** int(agent.n_step)
     _STATE["calls"] = []
-    with _NetTap(agent.actor) as on, _NetTap(agent.actor_target) as tg:
+    _STATE["events"] = []
+    with _NetTap(agent.actor, tag="on") as on, _NetTap(agent.actor_target, peer=agent.actor, tag="tg") as tg:
         try:
             out = agent.learn(exp, n_experiences=nexp, per=per)
         finally:
             calls, _STATE["calls"] = _STATE["calls"], None
+            events, _STATE["events"] = _STATE["events"], None
+    # network calls grouped by the _dqn_loss invocation they were made in (whatever their number and order)
+    groups, cur = [], {"on": [], "tg": []}
+    for tag, payload in events:
+        if tag == "ret":
+            groups.append(cur)
+            cur = {"on": [], "tg": []}
+        else:
+            cur[tag].append(payload)
     rec.hit("learn_calls")
     rec.hit("tap_returns", len(calls))
     # which calls the statement expects: 1-step only | n-step only | both (1-step first)
@@ -430,7 +471,8 @@ def _learn_once(rec, case, agent, rng, gen, step):
     # split the network taps per _dqn_loss call: online is called twice (q, then log-dist), target once
     losses = []
     for k, (name, b, g) in enumerate(plan):
-        ret = _check_call(rec, case, agent, calls[k], b, g, on.calls[2 * k : 2 * k + 2], tg.calls[k : k + 1], f"_dqn_loss[{name}]")
+        grp = groups[k] if k < len(groups) else {"on": [], "tg": []}
+        ret = _check_call(rec, case, agent, calls[k], b, g, grp["on"], grp["tg"], f"_dqn_loss[{name}]")
         losses.append(ret)
     if any(x is None for x in losses):
         return
